@@ -1,7 +1,7 @@
 #!/bin/bash
 # tools/seed_eval.sh <Cnn> <N> [other props to run too]  -- confirm a seeded change in its scratch worktree, then run our check(s) on /repo with it applied
 P=$1; N=$2; shift 2
-W=/tmp/seed_$P; D=$W/out/mut$N.diff
+W=${SEED_WT:-/tmp/seed_$P}; D=$W/out/mut$N.diff
 [ -f "$D" ] || { echo "no $D"; exit 2; }
 cd $W && git checkout -q -- cutplace
 base=$(/venv/bin/python -m pytest -q -p no:cacheprovider tests 2>&1 | tail -1)
